@@ -425,7 +425,12 @@ func (e *fenv) beginStart(d time.Duration) (*attempt, string) {
 	// the first Deploy tells how many to expect (the request names every member)
 	want := -1
 	for len(e.deploys) != want {
-		x, ok := e.take(waitLong, func(x ev) bool { return x.Kind == "deploy" })
+		// the Deploy calls of one start() are issued back to back: once the first has arrived the others are due
+		d := waitLong
+		if len(e.deploys) > 0 {
+			d = 5 * time.Second
+		}
+		x, ok := e.take(d, func(x ev) bool { return x.Kind == "deploy" })
 		if !ok {
 			break
 		}
@@ -651,6 +656,9 @@ func (e *fenv) newestAcceptable() []uint64 {
 // ---------------------------------------------------------------- replay ----
 
 func replayFake(bi int, beh []mbt.Step, in *mbt.Input, res *mbt.Result) {
+	if len(res.Violations) >= 3 {
+		return // enough witnesses from this chunk; every further one may cost long waits
+	}
 	W := in.CfgInt("W", 1)
 	boot := in.CfgInt("Boot", 0)
 	e, err := newFenv(W)
